@@ -9,6 +9,7 @@
  *   cc    <path>                                         contents of a credential cache file
  * Nothing here knows the specification; the comparison is made by TLC (spec/mit/TraceMIT.tla). */
 #include <krb5.h>
+#include <profile.h>
 #include <gssapi/gssapi.h>
 #include <gssapi/gssapi_krb5.h>
 #include <gssapi/gssapi_ext.h>
@@ -38,8 +39,8 @@ int main(void) {
     if (krb5_init_context(&ctx)) { fprintf(stderr, "krb5_init_context failed\n"); return 2; }
     static char line[1 << 22];
     while (fgets(line, sizeof line, stdin)) {
-        char *tok[8]; int nt = 0;
-        for (char *p = strtok(line, " \n"); p && nt < 8; p = strtok(NULL, " \n")) tok[nt++] = p;
+        char *tok[64]; int nt = 0; char *save = NULL;
+        for (char *p = strtok_r(line, " \n", &save); p && nt < 64; p = strtok_r(NULL, " \n", &save)) tok[nt++] = p;
         if (nt == 0) continue;
         if (!strcmp(tok[0], "s2k") && nt == 5) {
             unsigned char *pw, *salt, *par; int np = unhex(tok[2], &pw), ns = unhex(tok[3], &salt), npar = unhex(tok[4], &par);
@@ -163,6 +164,34 @@ int main(void) {
             m2 = gss_unwrap(&min, c, &wb, &o, &conf, &q);
             printf("{\"rc\":0,\"mic\":%u,\"unwrap\":%u,", (unsigned)m1, (unsigned)m2); puthex("plain", GSS_ERROR(m2) ? (unsigned char *)"" : o.value, GSS_ERROR(m2) ? 0 : o.length);
             printf(",\"out\":\"\"}\n");
+        } else if (!strcmp(tok[0], "conf") && nt >= 2) {
+            /* conf <krb5.conf path> [<kind>:<section>:<name>[:<sub>]]... : what MIT's profile library reads from the file.
+             * kind b = boolean (value or "unset"/"bad"), d = duration in seconds via krb5_string_to_deltat, s = string, v = list of values */
+            profile_t prof = NULL; const char *files[2] = {tok[1], NULL};
+            long prc = profile_init(files, &prof);
+            printf("{\"rc\":%ld,\"vals\":[", prc);
+            for (int i = 2; !prc && i < nt; i++) {
+                char kind = tok[i][0]; char *spec = tok[i] + 2; char *parts[3] = {NULL, NULL, NULL}; int np2 = 0;
+                for (char *p = strtok(spec, ":"); p && np2 < 3; p = strtok(NULL, ":")) parts[np2++] = p;
+                printf("%s", i > 2 ? "," : "");
+                if (kind == 'v') {
+                    const char *names[4] = {parts[0], parts[1], parts[2], NULL}; char **vals = NULL;
+                    long r = profile_get_values(prof, names, &vals);
+                    printf("[");
+                    for (int k = 0; !r && vals && vals[k]; k++) printf("%s\"%s\"", k ? "," : "", vals[k]);
+                    printf("]");
+                    if (!r && vals) profile_free_list(vals);
+                } else {
+                    char *val = NULL; long r = profile_get_string(prof, parts[0], parts[1], parts[2], NULL, &val);
+                    if (r || !val) printf("\"unset\"");
+                    else if (kind == 'b') { int b = 0; long br = profile_get_boolean(prof, parts[0], parts[1], parts[2], -1, &b); printf(br ? "\"bad\"" : (b ? "\"true\"" : "\"false\"")); }
+                    else if (kind == 'd') { krb5_deltat dt = 0; krb5_error_code dr = krb5_string_to_deltat(val, &dt); if (dr) printf("\"bad\""); else printf("\"%d\"", (int)dt); }
+                    else { printf("\""); for (char *p = val; *p; p++) if (*p != '"' && *p != '\\' && (unsigned char)*p >= 32) putchar(*p); printf("\""); }
+                    if (val) profile_release_string(val);
+                }
+            }
+            printf("],\"out\":\"\"}\n");
+            if (prof) profile_release(prof);
         } else if (!strcmp(tok[0], "hostrealm") && nt == 3) {
             /* hostrealm <krb5.conf path> <host name> : the realm MIT's [domain_realm] resolution gives the host ("" = none) */
             setenv("KRB5_CONFIG", tok[1], 1);
